@@ -475,7 +475,7 @@ class Run:
 
 
 def run_case(case, props=("C14",)):
-    return Run(case, props).run()
+    return archlib.guarded(Run(case, props), set(props))
 
 
 def nontrivial(case):
